@@ -110,8 +110,8 @@ func init() {
 		Variants: []string{"plain"},
 		Rule: "per run: one tape-drawn Ed25519 key and alpha (lengths biased to SHA-512 block seams); Prove and Prove_v10 are compared bytewise with the RFC 9381 model, verified under the matching format, and must be rejected under the other format; " +
 			"ProveWithAddedRandomness(_v10) run over a fault-injecting entropy reader (short/single-byte/zero-length reads, degenerate content, error or EOF at an offset below 40): a reader failure inside the 32 bytes must give (nil, error), otherwise exactly 32 bytes are consumed, the proof verifies with the same output as Prove, differs from the deterministic proof, is reproduced bytewise when the same 32 bytes are replayed under another chunking, and changes when one entropy bit is flipped; " +
-			"1..3 tuples are altered in transit (one bit of Gamma/c/s/pk/alpha, truncation or extension of pi/pk/alpha, s+m*L, small-order public key from the 8-torsion list with the honest proof or with a forgery that satisfies both verification equations for that key, non-canonical public key, non-canonical Gamma, another key or input, a proof made for another key or input) and must give (false, nil); " +
-			"0..2 proofs come from a Byzantine prover that knows its scalar x and emits Gamma' = x*H + T (T from the 8-torsion list) with a consistently recomputed challenge and s: accepted iff c*T is the identity, and every accepted proof must give the output of the honest proof; " +
+			"1..3 (thorough 1..6) tuples are altered in transit (one bit of Gamma/c/s/pk/alpha, truncation or extension of pi/pk/alpha, s+m*L, small-order public key from the 8-torsion list with the honest proof or with a forgery that satisfies both verification equations for that key, non-canonical public key, non-canonical Gamma, another key or input, a proof made for another key or input) and must give (false, nil); " +
+			"0..2 (thorough 0..4) proofs come from a Byzantine prover that knows its scalar x and emits Gamma' = x*H + T (T from the 8-torsion list) with a consistently recomputed challenge and s: accepted iff c*T is the identity, and every accepted proof must give the output of the honest proof; " +
 			"every Verify decision and output, and every ProofToHash decision and output, is compared with the RFC 9381 model on every delivered tuple; " +
 			"non-trivial = at least one altered tuple or Byzantine proof was evaluated; distinct = distinct event-log digests",
 		Real: []string{"ecvrf.Prove / Prove_v10 / ProveWithAddedRandomness / ProveWithAddedRandomness_v10", "ecvrf.Verify / Verify_v10 / ProofToHash", "primitives/h2c (encode_to_curve)", "curve, curve/scalar"},
@@ -399,13 +399,16 @@ func runC15(e *Env, r *core.Run) {
 	}
 
 	// ---- 4. the corrupting wire -------------------------------------------------
-	nAlt := 1 + t.W(3)
+	nAlt, maxCraft := 1+t.W(3), 3
+	if e.Thorough() {
+		nAlt, maxCraft = 1+t.W(6), 5
+	}
 	for i := 0; i < nAlt && !failed(); i++ {
 		c.alter(proofs[t.W(len(proofs))])
 	}
 
 	// ---- 5. the Byzantine prover ------------------------------------------------
-	nCraft := t.W(3)
+	nCraft := t.W(maxCraft)
 	for i := 0; i < nCraft && !failed(); i++ {
 		c.byzantine(t.W(2) == 1)
 	}
@@ -436,7 +439,7 @@ func (c *c15Run) forge(pk, gammaString, alpha []byte, v10 bool) []byte {
 // Whatever the fault, the verifier must answer (false, nil).
 func (c *c15Run) alter(base c15Proof) {
 	t, r := c.t, c.r
-	pk, pi, alpha := clone(c.pk), clone(base.pi), clone(c.alpha)
+	pk, pi, alpha := clone(c.pk), clone(base.pi), append([]byte{}, c.alpha...)
 	v10 := base.v10
 	var name string
 	flip := func(b []byte, bit int) { b[bit/8] ^= 1 << uint(bit%8) }
